@@ -133,3 +133,52 @@ package mem
 //@ loop 2 invariant forall e *list.Element :: inList(q.l, e) ==> old(inList(q.l, e))
 //@ loop 2 invariant rs == nil || isfresh(rs)
 //@ loop 2 invariant forall k int :: 0 <= k && k < len(rs) ==> handedOK(q, rs[k], now) && notInTail(q, rs[k])
+
+// Add(elem): the drop ladder of a full queue. now() is the clock reading Add took. removed(v) below is
+// "v was in the list before and is not any more".
+//   room left            -> elem appended, queue gauge +1, nothing dropped;
+//   full                 -> exactly one drop is reported and the length stays: in order of preference
+//                           (1) the front entry if it is in flight and expired (ErrDropExpiredInflight, in-flight gauge -1),
+//                           (2) the first queued, never sent, expired message (ErrDropExpired),
+//                           (3) the first queued, never sent, QoS 0 message (ErrDropQueueFull),
+//                           (4) the newcomer if it is QoS 0,
+//                           (5) the oldest queued message once the in-flight entries have been replayed,
+//                           (6) otherwise the newcomer;
+//                           whenever an old entry is dropped the newcomer is appended.
+//@ spec func isQueued(q *Queue, e *list.Element) bool = inList(q.l, e) && q.current != nil && e.$pos >= q.current.$pos
+//@ spec func candQ(q *Queue, e *list.Element) bool = isQueued(q, e) && idOf(e) == 0
+//@ spec func expQ(q *Queue, e *list.Element, now time.Time) bool = candQ(q, e) && expiredAt(elemOf(e), now)
+//@ spec func zeroQ(q *Queue, e *list.Element) bool = isQueued(q, e) && idOf(e) == 0 && pubOf(e).Message.QoS == 0
+//@ spec func newElemOK(q *Queue, x *queue.Elem) bool = x != nil && x.MessageWithID.(type *queue.Publish) && x.MessageWithID.(*queue.Publish) != nil && pubMsg(x) != nil && (forall e *list.Element :: inList(q.l, e) ==> elemOf(e) != x && (isPub(e) ==> pubOf(e) != x.MessageWithID.(*queue.Publish) && pubOf(e).Message != pubMsg(x)))
+
+//@ func (*Queue).Add
+//@ props C10 C12
+//@ let N = q.notifier
+//@ let L0 = q.l.$len
+//@ requires [C10] qOK(q) && newElemOK(q, elem)
+//@ modifies q.current, ghost(q.l.$len), ghost(q.l.$next), ghostall(list.Element.$owner), ghostall(list.Element.$pos), all(list.Element.Value), ghost(N.$queued), ghost(N.$inflight), ghost(N.$drops), ghost(N.$lastDrop), ghost(N.$lastErr)
+//@ ensures [C10] err == nil && qOK(q)
+//@ ensures [C10] old(qDistinct(q)) ==> qDistinct(q)
+//@ ensures [C10] old(tailFresh(q)) && pubMsg(elem).PacketID == 0 ==> tailFresh(q)
+//@ ensures [C10] forall e *list.Element :: e.Value != old(e.Value) ==> !old(inList(q.l, e)) && inList(q.l, e) && e.Value.(type *queue.Elem) && elemOf(e) == elem && e.$pos == old(q.l.$next)
+//@ ensures [C10] forall e *list.Element :: inList(q.l, e) && !old(inList(q.l, e)) ==> e.Value.(type *queue.Elem) && elemOf(e) == elem && e.$pos == old(q.l.$next)
+//@ ensures [C10] forall e *list.Element :: old(inList(q.l, e)) ==> e.$pos == old(e.$pos)
+//@ ensures [C10] old(L0) < q.max ==> q.l.$len == old(L0) + 1 && N.$queued == old(N.$queued) + 1 && N.$drops == old(N.$drops) && N.$inflight == old(N.$inflight) && (forall v *list.Element :: old(inList(q.l, v)) ==> inList(q.l, v)) && (exists e *list.Element :: inList(q.l, e) && !old(inList(q.l, e)))
+//@ ensures [C10] old(L0) >= q.max ==> q.l.$len == old(L0) && N.$queued == old(N.$queued) && N.$drops == old(N.$drops) + 1
+//@ ensures [C10] old(L0) >= q.max ==> (forall v *list.Element, w *list.Element :: old(inList(q.l, v)) && !inList(q.l, v) && old(inList(q.l, w)) && !inList(q.l, w) ==> v == w)
+//@ ensures [C10] old(L0) >= q.max ==> (N.$lastErr == queue.ErrDropExpiredInflight ? N.$inflight == old(N.$inflight) - 1 : N.$inflight == old(N.$inflight))
+//@ ensures [C10] old(L0) >= q.max ==> (forall v *list.Element :: old(inList(q.l, v)) && !inList(q.l, v) ==> N.$lastDrop == old(elemOf(v)))
+//@ ensures [C10] old(L0) >= q.max ==> (forall v *list.Element :: old(inList(q.l, v)) && !inList(q.l, v) ==> (exists e *list.Element :: inList(q.l, e) && !old(inList(q.l, e))))
+//@ ensures [C10] old(L0) >= q.max ==> N.$lastErr == queue.ErrDropExpiredInflight || N.$lastErr == queue.ErrDropExpired || N.$lastErr == queue.ErrDropQueueFull
+//@ ensures [C10 C12] old(L0) >= q.max && N.$lastErr == queue.ErrDropExpiredInflight ==> (forall v *list.Element :: old(inList(q.l, v)) && !inList(q.l, v) ==> old(isFront(q.l, v)) && v != old(q.current) && expiredAt(old(elemOf(v)), now()))
+//@ ensures [C10 C12] old(L0) >= q.max && N.$lastErr == queue.ErrDropExpired ==> (forall v *list.Element :: old(inList(q.l, v)) && !inList(q.l, v) ==> old(candQ(q, v)) && expiredAt(old(elemOf(v)), now()))
+//@ ensures [C10 C12] old(L0) >= q.max && N.$lastErr == queue.ErrDropExpired ==> (forall v *list.Element, f *list.Element :: old(inList(q.l, v)) && !inList(q.l, v) && old(candQ(q, f)) && expiredAt(old(elemOf(f)), now()) ==> f.$pos >= v.$pos)
+//@ ensures [C10 C12] old(L0) >= q.max && N.$lastErr == queue.ErrDropQueueFull ==> (forall f *list.Element :: !(old(candQ(q, f)) && expiredAt(old(elemOf(f)), now())))
+//@ ensures [C10] old(L0) >= q.max && N.$lastErr == queue.ErrDropQueueFull ==> (forall v *list.Element :: old(inList(q.l, v)) && !inList(q.l, v) ==> (old(zeroQ(q, v)) && (forall f *list.Element :: old(zeroQ(q, f)) ==> f.$pos >= v.$pos)) || (old(q.inflightDrained) && v == old(q.current) && pubMsg(elem).QoS != 0 && (forall f *list.Element :: !old(zeroQ(q, f)))))
+//@ ensures [C10] old(L0) >= q.max && (forall v *list.Element :: old(inList(q.l, v)) ==> inList(q.l, v)) ==> N.$lastDrop == elem && N.$lastErr == queue.ErrDropQueueFull && (forall e *list.Element :: inList(q.l, e) ==> old(inList(q.l, e))) && (pubMsg(elem).QoS == 0 || !old(q.inflightDrained) || old(q.current) == nil)
+//@ ensures [C10 C12] old(L0) >= q.max ==> (forall f *list.Element :: (old(candQ(q, f)) && expiredAt(old(elemOf(f)), now())) || old(zeroQ(q, f)) ==> N.$lastDrop != elem)
+//@ ensures [C10 C12] old(L0) >= q.max ==> (forall v *list.Element :: old(inList(q.l, v) && isFront(q.l, v)) && v != old(q.current) && expiredAt(old(elemOf(v)), now()) ==> N.$lastErr == queue.ErrDropExpiredInflight && !inList(q.l, v))
+//@ loop 1 invariant drop && dropErr == queue.ErrDropQueueFull && now == now() && (e == nil || isQueued(q, e))
+//@ loop 1 invariant dropElem != nil ==> zeroQ(q, dropElem) && (e == nil || dropElem.$pos < e.$pos) && (forall f *list.Element :: zeroQ(q, f) ==> f.$pos >= dropElem.$pos)
+//@ loop 1 invariant dropElem == nil ==> (forall f *list.Element :: zeroQ(q, f) ==> e != nil && f.$pos >= e.$pos)
+//@ loop 1 invariant forall f *list.Element :: expQ(q, f, now) ==> e != nil && f.$pos >= e.$pos
